@@ -198,7 +198,7 @@ where
                     cases: per as u32,
                     rng_seed: RngSeed::Fixed(seed),
                     failure_persistence: None,
-                    max_shrink_iters: 20_000,
+                    max_shrink_iters: 3_000,
                     max_global_rejects: 1_000_000,
                     verbose: 0,
                     ..Config::default()
